@@ -207,8 +207,8 @@ def make_xfunction(prog, plan):
 
         def graph(freq=defaults):
             run({'freq': freq})
-    elif variant.startswith('named'):
-        # def graph(p0=0.25, p1: 'ir' = 0.5, ...)
+    elif variant.startswith('named') or variant.startswith('grp_'):
+        # def graph(p0=0.25, p1: 'ir' = 0.5, ...) / tuple defaults
         spec = xg.param_spec(variant)
         sig = ', '.join(
             f'{nm}={dv!r}' if kind == 'kr' else f'{nm}: {kind!r} = {dv!r}'
@@ -683,11 +683,22 @@ PAR_TYPES = {'gate': [(['par', 'gate'], 'K')],
                           (['par', 'b'], 'K'), (['par', 'k'], 'K')],
              'specs': [(['par', 'freq'], 'K'), (['par', 'amp'], 'K'),
                        (['par', 'gate'], 'K')]}
+for _v in xg.GROUP_VARIANTS:
+    # every single parameter, first and last element of every array
+    _lst = []
+    for _nm, _dv, _kind in xg.param_spec(_v):
+        _t = 'A' if _kind == 'ar' else 'K'
+        if isinstance(_dv, tuple):
+            _lst += [(['par', _nm, 0], _t), (['par', _nm, len(_dv) - 1], _t)]
+        else:
+            _lst.append((['par', _nm], _t))
+    PAR_TYPES[_v] = _lst
 BIN_KINDS = ['InFeedback', 'LagIn', 'InTrig', 'LocalIn.ar', 'LocalIn.kr',
              'SoundIn']
 BIN_TYPES = {'InFeedback': 'A2', 'LagIn': 'K2', 'InTrig': 'K2',
              'LocalIn.ar': 'A2', 'LocalIn.kr': 'K2', 'SoundIn': 'A'}
 OUT_CLASSES = ['Out', 'ReplaceOut', 'OffsetOut', 'XOut', 'LocalOut']
+POOL_GROUPS = ['sin', 'mul', 'add', 'lpf', 'pan', 'seed', 'lbuf']
 POOL_BUS3 = ['sin', 'in', 'bin', 'pan', 'mul', 'sel', 'lpf']
 PARAM_ROUTES = ['lag', 'lag20', 'rates', 'prepend', 'wrap', 'manual',
                 'defaults', 'specs']
@@ -907,6 +918,27 @@ def skeleton_programs(name, m, shard, of, tagbase, slice_of=1, slice_ix=0):
         for o in out_modes(types, 'none'):
             yield {'x': 1, 'name': 'g', 'params': 'none', 'stmts': stmts,
                    'outs': o, 'tagbase': tagbase}
+
+
+def work_xv(job):
+    """Like work_x over several parameter variants; the variants are dealt
+    round-robin to the shards."""
+    acc = progenum.Acc()
+    for vi, variant in enumerate(job['variants']):
+        if vi % job['of'] != job['shard']:
+            continue
+        for prog in xprograms(job['length'], job['pools'], variant, 0, 1,
+                              job['tagbase']):
+            dis, nt, outcome, skipped = check_x(prog)
+            if skipped:
+                acc.count('skipped_not_decided')
+                continue
+            for kind, exp, obs, detail in dis:
+                acc.violation(kind, prog, exp, obs, detail,
+                              size=len(prog['stmts']) * 10000 +
+                              len(core.canon(prog)))
+            acc.case(prog, nt, outcome, steps=len(prog['stmts']) + 1)
+    return acc.result()
 
 
 def work_x(job):
@@ -2201,6 +2233,17 @@ def main(ctx):
                                          if length > 1 else 1)],
                          bound=f'extended programs with parameters '
                                f'({params}), {length} statements')
+    # array-valued parameters at every place of every control group
+    for length in (1, 2):
+        pool = POOL_GROUPS if quick else POOL_FULL
+        progenum.run(ctx, MODNAME, 'work_xv',
+                     [{'length': length, 'pools': [pool] * length,
+                       'variants': xg.GROUP_VARIANTS, 'shard': i, 'of': 16,
+                       'tagbase': tagbase} for i in range(16)],
+                     bound=f'extended programs with array parameters in '
+                           f'every control group ({len(xg.GROUP_VARIANTS)} '
+                           f'layouts), {length} statements' +
+                           (', reduced pool' if quick else ''))
     for name in sorted(SKELETONS):
         for m in (0, 1):
             progenum.run(ctx, MODNAME, 'work_x',
@@ -2236,6 +2279,8 @@ def main(ctx):
             'extended programs with all bus unit classes <= 2 statements',
             'extended programs with parameters <= 2 statements (10 ways to '
             'declare them)',
+            'extended programs with array parameters in every control '
+            'group <= 2 statements (reduced pool)',
             'skeletons + <= 1 inserted statement']
         ctx.extra['sampled_slices'] = [
             'C01 programs 2 statements: 1/8 of the prefixes',
@@ -2271,5 +2316,6 @@ def main(ctx):
             '3 statements (pool sin, in, bin, pan, mul, sel, lpf)',
             'extended programs with parameters: gate, mixed 2 statements; '
             'lag, lag20, rates, prepend, wrap, manual, defaults, specs '
-            '<= 3 statements',
+            '<= 3 statements; array parameters in every control group '
+            '<= 2 statements',
             'skeletons + <= 2 inserted statements']
